@@ -77,7 +77,11 @@ func plainDownlink(r *rand.Rand) ([]byte, string) {
 			n = pick(r, 255, 256, 2030+r.Intn(30), 2047, 2048, 2049, 4095, 4096, 4097, 8191, 8192, 16383, 16384, 32768, 65535, 300+r.Intn(65000))
 		}
 		b := []byte{0x7e, 0x00, 0x68, 0x01, byte(n >> 8), byte(n)}
-		b = append(b, rbytes(r, n)...)
+		if r.Intn(2) == 0 {
+			b = append(b, blockyBytes(r, n)...)
+		} else {
+			b = append(b, rbytes(r, n)...)
+		}
 		if r.Intn(2) == 0 {
 			b = append(b, 0x12, byte(r.Intn(256)))
 		}
